@@ -211,7 +211,7 @@ def run(prop, tier):
             cases, meta = [], []
             for l in lines:
                 for j in range(ninst):
-                    cases.append({"id": len(cases), "src": render(l, rng, spell, names=keys if fam in NEWFAMS else None), "timeout": 8000})
+                    cases.append({"id": len(cases), "src": render(l, rng, spell, names=keys if fam in NEWFAMS else None), "timeout": 30000})
                     meta.append(l)
             outs = run_lua_cases(drv, cases)
             for i, l in enumerate(meta):
